@@ -28,6 +28,8 @@ LEAN = os.path.join(VERIF, 'lean')
 # The registered checks always run against /repo.  VERIF_REPO exists only so that a scratch copy of the
 # repository (e.g. one carrying a seeded breaking change) can be checked without touching /repo.
 REPO = os.environ.get('VERIF_REPO', '/repo')
+if REPO not in sys.path:
+    sys.path.insert(0, REPO)      # before anything imports torch_frame
 ALLOWED_AXIOMS = {'propext', 'Classical.choice', 'Quot.sound'}
 FORBIDDEN = re.compile(
     r'\bsorry\b|\badmit\b|^\s*axiom\s|native_decide|bv_decide|implemented_by|\bunsafe\s|maxHeartbeats\s+0')
@@ -278,7 +280,11 @@ class Check:
 
         # 1. tables
         from harness import tables
-        tables.regenerate()
+        deps = tables.gen_deps(pid)
+        _, tab_failed = tables.regenerate(only=deps)
+        for name, e in tab_failed.items():
+            if name in deps or name.lower() in {d.lower() for d in deps}:
+                report['broken'].append(f'table translator: Gen.{name} cannot be generated from the live code: {e}')
 
         # 2. build
         props_mod, audit_mod = f'TFVerif.Props.{pid}', f'TFVerif.Audit.{pid}'
